@@ -928,4 +928,127 @@ def decodeTagValues (z : Zstd) (fd : FloatDec) (buf : List Byte) (vt : VType) (n
     | .float64 => decodeFloat64TagValues z fd buf n
     | .other => decodeDefaultTagValues z buf n
 
+/-! ## 8. per-engine tag value marshalling (`banyand/{measure,stream,trace}`)
+
+Each engine carries its own copy of `encodeTagValue` / `marshal` / `mustDecodeTagValue`; measure and
+stream also carry private copies of `marshalVarArray` / `unmarshalVarArray` (slice-returning loop form),
+trace uses `pkg/encoding`. One model, two decoder variants. -/
+
+inductive TagVal where
+  | null
+  | str (s : List Byte)
+  | bin (b : List Byte)
+  | int (v : I64)
+  | strArr (l : List (List Byte))
+  | intArr (l : List I64)
+  | ts (sec nanos : Int)
+  deriving DecidableEq, Repr
+
+inductive TVType where
+  | str | bin | int | strArr | intArr | ts
+  deriving DecidableEq, Repr
+
+def TagVal.type? : TagVal → Option TVType
+  | .null => none
+  | .str _ => some .str
+  | .bin _ => some .bin
+  | .int _ => some .int
+  | .strArr _ => some .strArr
+  | .intArr _ => some .intArr
+  | .ts _ _ => some .ts
+
+/-- `encodeTagValue(...).marshal()`; `none` is a nil slice (null value, and also an array without
+    elements: `var dst []byte` is returned untouched). -/
+def engineMarshal : TagVal → Option (List Byte)
+  | .null => none
+  | .str s => some s
+  | .bin b => some b
+  | .int v => some (C12.int64ToBytes v)
+  | .strArr [] => none
+  | .strArr l => some (l.flatMap marshalVarArray)
+  | .intArr [] => none
+  | .intArr l => some (l.flatMap C12.int64ToBytes)
+  | .ts sec nanos => some (C12.int64ToBytes (BitVec.ofInt 64 (sec * 1000000000 + nanos)))
+
+/-- the private `unmarshalVarArray(dest, src)` of measure/stream: `(value, rest)`. -/
+def ownUnmarshalVarArray (src : List Byte) : Res (List Byte × List Byte) :=
+  match src with
+  | [] => .err
+  | _ :: _ =>
+    match unescapeLoop src [] 0 with
+    | .ok (v, used) => .ok (v, src.drop used)
+    | .err => .err
+    | .panic => .panic
+
+/-- `for len(value) > 0 { bb.Buf, value, err = unmarshalVarArray(bb.Buf[:0], value); … }` -/
+def ownDecodeStrArr : Nat → List Byte → Res (List (List Byte))
+  | 0, _ => .err
+  | fuel + 1, src =>
+    match src with
+    | [] => .ok []
+    | _ :: _ =>
+      match ownUnmarshalVarArray src with
+      | .ok (v, rest) =>
+        match ownDecodeStrArr fuel rest with
+        | .ok vs => .ok (v :: vs)
+        | .err => .err
+        | .panic => .panic
+      | .err => .err
+      | .panic => .panic
+
+/-- trace: `for idx := 0; idx < len(value); idx = next { end, next, err = encoding.UnmarshalVarArray(value, idx) … }` -/
+def idxDecodeStrArr : Nat → List Byte → Nat → Res (List (List Byte))
+  | 0, _, _ => .err
+  | fuel + 1, src, idx =>
+    if idx < src.length then
+      match unmarshalVarArray src idx with
+      | .ok (v, next) =>
+        match idxDecodeStrArr fuel src next with
+        | .ok vs => .ok (v :: vs)
+        | .err => .err
+        | .panic => .panic
+      | .err => .err
+      | .panic => .panic
+    else .ok []
+
+/-- `for i := 0; i < len(value); i += 8 { convert.BytesToInt64(value[i:i+8]) }` (faults on a ragged tail). -/
+def decodeIntArr : Nat → List Byte → Res (List I64)
+  | 0, _ => .err
+  | fuel + 1, src =>
+    match src with
+    | [] => .ok []
+    | _ :: _ =>
+      if src.length < 8 then .panic
+      else
+        match decodeIntArr fuel (src.drop 8) with
+        | .ok vs => .ok (C12.bytesToInt64 (src.take 8) :: vs)
+        | .err => .err
+        | .panic => .panic
+
+/-- `mustDecodeTagValue(valueType, value)`; `own` selects the private var-array copy (measure, stream)
+    or `pkg/encoding` (trace). Decoder errors are escalated with `logger.Panicf`. -/
+def engineDecode (own : Bool) (vt : TVType) (raw : Option (List Byte)) : Res TagVal :=
+  match raw with
+  | none => .ok .null
+  | some b =>
+    match vt with
+    | .str => .ok (.str b)
+    | .bin => .ok (.bin b)
+    | .int => if b.length < 8 then .panic else .ok (.int (C12.bytesToInt64 b))
+    | .strArr =>
+      match orPanic (if own then ownDecodeStrArr (b.length + 1) b else idxDecodeStrArr (b.length + 1) b 0) with
+      | .ok l => .ok (.strArr l)
+      | .err => .err
+      | .panic => .panic
+    | .intArr =>
+      match orPanic (decodeIntArr (b.length + 1) b) with
+      | .ok l => .ok (.intArr l)
+      | .err => .err
+      | .panic => .panic
+    | .ts =>
+      if b.length < 8 then .panic
+      else
+        let n := (C12.bytesToInt64 b).toInt
+        .ok (.ts (Int.tdiv n 1000000000) (Int.tmod n 1000000000))
+
 end Banyan.C11
